@@ -15,7 +15,7 @@ from harness.common import zlit, zlist, zpairs
 
 GEN_MODULES = ['livetime']
 MODEL_TARGETS = ['model/M_Livetime.vo']
-PROOF_TARGETS = ['proofs/P_Livetime.vo']
+PROOF_TARGETS = ['proofs/P_Livetime.vo', 'proofs/P_LivetimeGrl.vo']
 LEVEL = 'proof'
 RULE = ('interval lists with 1..40 intervals (touching, zero-length, tiny/huge gaps), windows of every kind '
         '(inside one interval, spanning gaps, in a gap, before first, after last, infinite, on edges), '
@@ -324,6 +324,172 @@ def integrity_stream(ctx, Livetime, rng, model_exprs, checks, n):
                           f'expected {exc.__name__}, got {got}', case={'array': repr(bad)[:80]})
 
 
+def gen_runs(rng, kind, m):
+    """a good-run list of m runs as (start, stop) pairs in model units"""
+    U = UNIT
+    edges = sorted(rng.sample(range(-40, 400), 2 * m))
+    runs = [(edges[2 * i] * U, edges[2 * i + 1] * U) for i in range(m)]
+    if m < 2:
+        return runs
+    i = rng.randrange(1, m)
+    if kind == 'slight-overlap':        # run i starts shortly before run i-1 stops
+        for j in range(1, m):
+            if rng.random() < 0.6:
+                lo = max(runs[j - 1][0], runs[j - 1][1] - 3 * U)
+                runs[j] = (rng.choice([lo, runs[j - 1][1] - U // 2, runs[j - 1][1] - U // 4]), runs[j][1])
+        runs = [(max(s, runs[j - 1][0]) if j else s, e) for j, (s, e) in enumerate(runs)]
+    elif kind == 'touching':
+        runs[i] = (runs[i - 1][1], runs[i][1])
+    elif kind == 'contained':           # run i lies inside run i-1: its stop is before the predecessor's stop
+        s0, e0 = runs[i - 1]
+        if e0 - s0 >= 2 * U:
+            runs[i] = (s0 + U // 2, e0 - U // 2)
+        else:
+            runs[i - 1] = (s0, runs[i][1] + U)
+    elif kind == 'unsorted-starts':     # starts not sorted, stops still sorted
+        runs[i] = (runs[0][0] - U, runs[i][1])
+    elif kind == 'swapped-rows':
+        runs[i - 1], runs[i] = runs[i], runs[i - 1]
+    elif kind == 'stop-before-start':
+        runs[i] = (runs[i][1], runs[i][0])
+    elif kind == 'zero-length':
+        runs[i] = (runs[i][0], runs[i][0])
+    elif kind == 'equal-starts':
+        runs[i] = (runs[i - 1][0], runs[i][1])
+    return runs
+
+
+def grl_array(runs):
+    a = np.zeros(len(runs), dtype=[('run', np.int64), ('start', np.float64), ('stop', np.float64),
+                                   ('livetime', np.float64), ('events', np.int64)])
+    a['run'] = np.arange(120000, 120000 + len(runs))
+    a['start'] = [z2f(s) for s, _ in runs]
+    a['stop'] = [z2f(e) for _, e in runs]
+    a['livetime'] = a['stop'] - a['start']
+    a['events'] = 7
+    return a
+
+
+def grl_stream(ctx, rng, model_exprs, checks, n, only=None):
+    """good-run list -> Livetime, the way time_dependent_ps.create_analysis does it: clip_grl_start_times,
+    I3Livetime.from_grl_data, is_on / get_integrated_livetime on the result, LivetimeTimeGenerationMethod /
+    TimeGenerator on top of it (theorems C14_grl_*).  Compared with the model (clip_grl, from_grl, grl_livetime)
+    and with an independent predicate: a time is on exactly when it lies in one of the runs."""
+    from skyllh.analyses.i3.publicdata_ps.utils import clip_grl_start_times
+    from skyllh.i3.livetime import I3Livetime
+    from skyllh.core.livetime import Livetime
+    from skyllh.core.times import LivetimeTimeGenerationMethod, TimeGenerator
+    kinds = ['disjoint', 'slight-overlap', 'slight-overlap', 'touching', 'contained', 'unsorted-starts',
+             'swapped-rows', 'stop-before-start', 'zero-length', 'equal-starts']
+    fixed = [('slight-overlap', [(10 * UNIT, 20 * UNIT), (18 * UNIT, 30 * UNIT), (30 * UNIT, 30 * UNIT),
+                                 (29 * UNIT, 41 * UNIT), (50 * UNIT, 60 * UNIT)]),
+             ('contained', [(0, 10 * UNIT), (2 * UNIT, 5 * UNIT)]),
+             ('empty', []), ('single', [(3 * UNIT, 4 * UNIT)]),
+             ('slight-overlap', [(10 * UNIT, 20 * UNIT), (18 * UNIT, 30 * UNIT), (29 * UNIT, 41 * UNIT)])]
+    if only is not None:
+        fixed, n = only, 0
+    for k in range(n + len(fixed)):
+        if k < len(fixed):
+            kind, runs = fixed[k]
+        else:
+            kind = kinds[k % len(kinds)]
+            runs = gen_runs(rng, kind, rng.choice([1, 2, 2, 3, 4, 6, 9, 15, 40]))
+        ctx.count('grl:' + kind)
+        case = {'grl_runs': runs, 'kind': kind, 'scale': SCALE}
+        ctx.case(case)
+        cruns = zpairs(runs) if runs else '(@nil (Z * Z))'
+        # (a) without clipping
+        try:
+            lt0 = I3Livetime.from_grl_data(grl_array(runs))
+            impl0 = ['Ok', [(f2z(float(a)), f2z(float(b))) for a, b in lt0.uptime_mjd_intervals_arr]]
+        except Exception as ex:
+            impl0 = ['Err', exc_name(ex)]
+        model_exprs.append(f'from_grl {cruns}')
+        checks.append(('grl_livetime', dict(case, op='from_grl_data without clipping'), impl0))
+        # (b) clip, in place
+        grl = grl_array(runs)
+        snap = grl.copy()
+        try:
+            ret = clip_grl_start_times(grl_data=grl)
+        except Exception as ex:
+            ctx.violation('clip_grl_start_times', 'raises', f'{exc_name(ex)}: {ex}', case=case)
+            continue
+        impl_c = [(f2z(float(a)), f2z(float(b))) for a, b in zip(grl['start'], grl['stop'])]
+        model_exprs.append(f'clip_grl {cruns}')
+        checks.append(('grl_clip', dict(case, op='clip_grl_start_times'), impl_c))
+        for f in ('run', 'stop', 'livetime', 'events'):
+            if grl[f].tobytes() != snap[f].tobytes():
+                ctx.violation('clip_grl_start_times', 'writes-other-column', f'column {f} changed', case=case,
+                              predicate='only the start column is written')
+        if ret is not None or len(grl) != len(snap):
+            ctx.violation('clip_grl_start_times', 'changes-run-count', f'returned {ret!r}, {len(grl)} rows', case=case)
+        want_c = [(s if j == 0 else max(s, runs[j - 1][1]), e) for j, (s, e) in enumerate(runs)]
+        if impl_c != want_c:
+            ctx.violation('clip_grl_start_times', 'wrong-start', f'clipped rows {impl_c[:6]} expected {want_c[:6]}', case=case,
+                          impl=impl_c, predicate='start_i = max(start_i, stop_(i-1)), stops unchanged')
+        # (c) the live time of the clipped list
+        try:
+            lt = I3Livetime.from_grl_data(grl_data=grl)
+            impl_l = ['Ok', [(f2z(float(a)), f2z(float(b))) for a, b in lt.uptime_mjd_intervals_arr]]
+        except Exception as ex:
+            lt = None
+            impl_l = ['Err', exc_name(ex)]
+        model_exprs.append(f'grl_livetime {cruns}')
+        checks.append(('grl_livetime', dict(case, op='clip + from_grl_data'), impl_l))
+        ordered = all(s <= e for s, e in runs) and all(runs[j][1] <= runs[j + 1][1] for j in range(len(runs) - 1))
+        if (impl_l[0] == 'Ok') != ordered:
+            ctx.violation('I3Livetime.from_grl_data', 'accepts-or-rejects-wrongly',
+                          f'{kind}: result {impl_l[0]}, runs ordered with non-decreasing stops = {ordered}', case=case,
+                          impl=impl_l, predicate='accepted <-> start<=stop for every run and stops non-decreasing')
+        if lt is None:
+            continue
+        if not isinstance(lt, I3Livetime) or lt.uptime_mjd_intervals_arr.dtype != np.float64:
+            ctx.violation('I3Livetime.from_grl_data', 'wrong-type', repr(type(lt)), case=case)
+        starts_sorted = all(runs[j][0] <= runs[j + 1][0] for j in range(len(runs) - 1))
+        if runs and starts_sorted:
+            edges = sorted({e for r in runs for e in r})
+            q = sorted({e + d for e in edges for d in (-UNIT // 4, 0, UNIT // 4)})[:90]
+            got = [bool(b) for b in lt.is_on(np.array([z2f(x) for x in q]))]
+            want = [brute_on(runs, x) for x in q]
+            model_exprs.append(f'match grl_livetime {cruns} with Ok ivs => map (is_on ivs) {zlist(q)} | Err _ => [] end')
+            checks.append(('is_on', dict(case, queries=q, op='is_on after clip + from_grl_data'), got))
+            if got != want:
+                j = [a != b for a, b in zip(got, want)].index(True)
+                ctx.violation('I3Livetime.from_grl_data', 'on-time-differs-from-runs',
+                              f't={z2f(q[j])}: is_on={got[j]}, lies in a run={want[j]}', case=dict(case, t=q[j]),
+                              impl=got, predicate='on <-> in one of the half-open runs')
+            ctx.count('grl:is_on-compared')
+        # (d) get_integrated_livetime
+        il = Livetime.get_integrated_livetime(lt)
+        model_exprs.append(f'match grl_livetime {cruns} with Ok ivs => integrated_livetime (inr ivs) | Err _ => -1 end')
+        checks.append(('livetime', dict(case, op='get_integrated_livetime(Livetime)'), f2z(float(il))))
+        if Livetime.get_integrated_livetime(3.5) != 3.5 or Livetime.get_integrated_livetime(0) != 0:
+            ctx.violation('Livetime.get_integrated_livetime', 'number-not-returned', 'a scalar argument must be returned', case=case)
+        # (e) the time generation method / generator hand the draw through unchanged
+        if il > 0:
+            xs = [0.0, 0.25, 0.5, 1 - 2 ** -20]
+            a, b = float(lt.time_start), float(lt.time_stop)
+            for kw in ({}, {'t_min': a, 't_max': b}, {'t_min': (a + b) / 2}):
+                try:
+                    ref = ['Ok'] + [float(v) for v in lt.draw_ontimes(StubRSS(xs), len(xs), **kw)]
+                except Exception as ex:
+                    ref = ['Err', exc_name(ex)]
+                for name, obj in (('LivetimeTimeGenerationMethod', LivetimeTimeGenerationMethod(livetime=lt)),
+                                  ('TimeGenerator', TimeGenerator(LivetimeTimeGenerationMethod(livetime=lt)))):
+                    try:
+                        got = ['Ok'] + [float(v) for v in obj.generate_times(rss=StubRSS(xs), size=len(xs), **kw)]
+                    except Exception as ex:
+                        got = ['Err', exc_name(ex)]
+                    if got != ref:
+                        ctx.violation(name + '.generate_times', 'differs-from-draw_ontimes', f'{got[:3]} vs {ref[:3]} kwargs={kw}',
+                                      case=case, impl=got, predicate='generate_times = Livetime.draw_ontimes with the same arguments')
+                    elif got[0] == 'Ok' and any(not brute_on(impl_l[1], f2z(v)) if v * SCALE == int(v * SCALE) else False
+                                                 for v in got[1:]):
+                        ctx.violation(name + '.generate_times', 'off-time-draw', f'{got}', case=case, impl=got,
+                                      predicate='generated time in on-time')
+                    ctx.count('grl:generate_times')
+
+
 def views(ctx, lt, ivs, when, hist):
     """the cheap accessors derived from the interval array; they must describe
     the interval set the object holds NOW (also on a re-used object)"""
@@ -543,6 +709,10 @@ def canon_model(kind, v):
         return list(v)
     if kind in ('livetime', 'integrity'):
         return v
+    if kind == 'grl_clip':
+        return [tuple(p) for p in v]
+    if kind == 'grl_livetime':
+        return ['Ok', [tuple(p) for p in v[1]]] if v[0] == 'Ok' else ['Err', v[1]]
     if isinstance(v, tuple) and v[0] == 'Err':
         return ['Err', v[1]]
     assert isinstance(v, tuple) and v[0] == 'Ok', v
@@ -634,6 +804,7 @@ def run(ctx):
             run_case(ctx, Livetime, get_data_subset, DatasetData, DFRA, c, model_exprs, checks)
     edge_rounding_probe(ctx, Livetime)
     integrity_stream(ctx, Livetime, rng, model_exprs, checks, ctx.budget(30, 400))
+    grl_stream(ctx, rng, model_exprs, checks, ctx.budget(40, 600))
     ctx.sample({'ivs_days': [[z2f(a), z2f(b)] for a, b in cases[-1]['ivs']][:6],
                 'windows': [(k, as_float_window(a), as_float_window(b)) for k, a, b in cases[-1]['windows']][:4]})
     if ctx.model_ok:
@@ -654,6 +825,12 @@ def replay(ctx, rp):
     if c.get('float_ivs'):
         edge_rounding_probe(ctx, Livetime)
         ctx.case(c)
+        return
+    if c.get('grl_runs') is not None:
+        model_exprs, checks = [], []
+        grl_stream(ctx, ctx.rng, model_exprs, checks, 0, only=[(c.get('kind', 'replay'), [tuple(p) for p in c['grl_runs']])])
+        if ctx.model_ok:
+            compare(ctx, checks, common.coq_eval('c14r', IMPORTS, model_exprs))
         return
     ivs = [tuple(p) for p in c.get('ivs', [])]
     if not ivs:
